@@ -4,7 +4,7 @@ import ast
 from sa.loader import AnalysisError, norm, walk_local
 from sa.cfg import cfg_of
 from sa.callgraph import bind_args
-from .common import analysis, names_in, resolve_local
+from .common import analysis, names_in, resolve_local, value_sources
 
 PROP = "C12"
 TECHNIQUE = "def-use provenance per public entry point (schema reaching a worker comes from parse_schema with the very, shared, name table handed to the worker); CFG dominance of the early-return copy of the embedded name table; data-dependence of the header schema on the name table filled by the parse; who-may-drop discipline for the reader schema"
@@ -129,14 +129,24 @@ def run(ctx):
         cfg = cfg_of(gw)
         dn = cfg.node_of(dumps[0])
         defs = [n for n in walk_local(gw.node) if isinstance(n, ast.Assign) and any(isinstance(t, ast.Name) and t.id == var for t in n.targets)]
-        closing = [n for n in defs if isinstance(n.value, ast.Call) and "self._named_schemas" in [norm(x) for x in n.value.args] and var in [norm(x) for x in n.value.args]]
+        sparam = gw.pos_params[1] if len(gw.pos_params) > 1 else "schema"
+
+        def from_schema(e):
+            """the expression is (a copy of) the caller's schema, possibly with the parse markers stripped"""
+            if not isinstance(e, ast.Name):
+                return False
+            srcs = value_sources(a, gw, e)
+            return any(k == "param" and v.arg == sparam for k, v in srcs)
+
+        closing = [n for n in defs if isinstance(n.value, ast.Call) and "self._named_schemas" in [norm(x) for x in n.value.args] and any(from_schema(x) for x in n.value.args)]
         cn = [cfg.node_of(n) for n in closing]
         # paths that avoid the closing assignment must be those on which no schema was given
         none_edges = set()
         for t in cfg.nodes:
-            if t.kind == "test" and norm(t.ast) == "schema is not None":
+            if t.kind == "test" and isinstance(t.ast, ast.Compare) and len(t.ast.ops) == 1 and isinstance(t.ast.ops[0], (ast.Is, ast.IsNot)) and norm(t.ast.comparators[0]) == "None" and from_schema(t.ast.left):
+                none_lab = "true" if isinstance(t.ast.ops[0], ast.Is) else "false"
                 for (m, lab) in t.succ:
-                    if lab == "false":
+                    if lab == none_lab:
                         none_edges.add((t, m, lab))
         ok = bool(closing) and cfg.must_pass(cfg.entry, dn, cn, skip_edges=none_edges)
         guards_ok = True
